@@ -6,6 +6,7 @@ import (
 	"fmt"
 	"io/ioutil"
 	"math/rand"
+	"net/http"
 	"os"
 	"path/filepath"
 	"sort"
@@ -69,7 +70,6 @@ func runDriveConc(args []string) int {
 	for r := 0; r < rounds; r++ {
 		rnd := rand.New(rand.NewSource(seed*1009 + int64(r)))
 		lay := cliLayouts[rnd.Intn(len(cliLayouts))]
-		cfg := MCfg{Layout: lay, Method: "sum", Xff: [2]int64{1, 2}}
 		k := len(lay)
 		maxRet := lay[k-1].Step * lay[k-1].N
 		mp := Mapping{B: drvBases[rnd.Intn(len(drvBases))], Scale: 1}
@@ -79,16 +79,21 @@ func runDriveConc(args []string) int {
 		base := filepath.Join(root, fmt.Sprintf("r%d", r))
 		nfiles := 6 + rnd.Intn(10)
 		var paths []string
+		fcfgs := map[string]MCfg{}
 		for i := 0; i < nfiles; i++ {
 			p := filepath.Join(base, "item1", fmt.Sprintf("s%02d.wsp", i))
-			createFile(p, cfg)
-			populate(p, cfg, mp, now, rnd, 1, 3+rnd.Intn(10))
+			// same archive list, but the files differ in aggregation method and xFilesFactor: the summed header is the
+			// FIRST file's (in name order), whichever read finishes first
+			fc := MCfg{Layout: lay, Method: []string{"sum", "last", "max", "min", "first"}[i%5], Xff: [][2]int64{{1, 2}, {0, 1}, {1, 1}, {1, 4}}[i%4]}
+			fcfgs[p] = fc
+			createFile(p, fc)
+			populate(p, fc, mp, now, rnd, 1, 3+rnd.Intn(10))
 			paths = append(paths, p)
 		}
 		sort.Strings(paths)
 		// ---- 1. K concurrent fetches on ONE fresh handle (cold, lazily filled page cache)
-		snap := snapshot(paths[0], cfg, mp)
-		emitCore(map[string]interface{}{"ev": "create", "cfg": cfg, "post": snap.Sp, "B": mp.B, "scale": 1, "trace": r})
+		snap := snapshot(paths[0], fcfgs[paths[0]], mp)
+		emitCore(map[string]interface{}{"ev": "create", "cfg": fcfgs[paths[0]], "post": snap.Sp, "B": mp.B, "scale": 1, "trace": r})
 		db, err := wt.Open(paths[0])
 		if err != nil {
 			fmt.Fprintln(os.Stderr, err)
@@ -144,25 +149,33 @@ func runDriveConc(args []string) int {
 		// ---- 2. sum reads its files concurrently
 		files := []sfile{}
 		for _, p := range paths {
-			files = append(files, snapshot(p, cfg, mp))
+			files = append(files, snapshot(p, fcfgs[p], mp))
 		}
 		e := &cliEnv{root: base, srcBase: base, destBase: base, mp: mp, now: now}
 		sel := rnd.Intn(k + 1)
 		f := now - rnd.Int63n(maxRet)
 		u := f + rnd.Int63n(maxRet)
 		runSum := func(srcBase, item, tag string) {
-			c := &cmd.SumCommand{SrcBase: srcBase, ItemPattern: item, SrcPattern: "s*.wsp", From: e.realT(f), Until: e.realT(u), ArchiveID: cmdArchive(sel), ShowHeader: false}
+			c := &cmd.SumCommand{SrcBase: srcBase, ItemPattern: item, SrcPattern: "s*.wsp", From: e.realT(f), Until: e.realT(u), ArchiveID: cmdArchive(sel), ShowHeader: true}
 			c.TextOut = filepath.Join(base, "sum-"+tag+".txt")
 			os.Remove(c.TextOut)
 			class, msg := classify(c.Execute())
 			b, _ := ioutil.ReadFile(c.TextOut)
-			got, _, perr := parsePointLines(string(b), mp)
+			got, other, perr := parsePointLines(string(b), mp)
 			if perr != nil {
 				class, msg = "err", "unparsable output: "+perr.Error()
 			}
-			emitCLI(map[string]interface{}{"ev": "sum", "now": now, "sel": sel, "f": f, "u": u, "files": files, "k": class, "msg": msg, "recs": recsJSON(got, mp), "via": tag})
+			ev := map[string]interface{}{"ev": "sum", "now": now, "sel": sel, "f": f, "u": u, "files": files, "k": class, "msg": msg, "recs": recsJSON(got, mp), "via": tag}
+			for _, l := range other {
+				if m := parseLTSV(l); m["aggMethod"] != "" {
+					ev["hdr"] = m["aggMethod"]
+				}
+			}
+			emitCLI(ev)
 		}
-		runSum(base, "item1", "local")
+		for rep := 0; rep < 6; rep++ {
+			runSum(base, "item1", "local")
+		}
 		// ---- 3. parallel HTTP requests of every endpoint against one server
 		rel := fmt.Sprintf("r%d", r)
 		var hw sync.WaitGroup
@@ -210,6 +223,55 @@ func runDriveConc(args []string) int {
 			}(t)
 		}
 		hw.Wait()
+		// requests that fail in different ways, issued concurrently: every answer is the one the request gets alone
+		ioutil.WriteFile(filepath.Join(base, "item1", "short.wsp"), []byte("short"), 0644)
+		var bad []string
+		for i := 0; i < 6; i++ {
+			bad = append(bad,
+				fmt.Sprintf("%s/view?file=%s/item1/s00.wsp&retention=x%d&from=a&until=b&now=c", srv.url, rel, i),
+				fmt.Sprintf("%s/view?file=%s/item1/s00.wsp&retention=0&from=bad%d&until=b&now=c", srv.url, rel, i),
+				fmt.Sprintf("%s/view-raw?file=%s/item1/short.wsp&retention=%d", srv.url, rel, i),
+				fmt.Sprintf("%s/view-raw?file=%s/item1/s00.wsp&retention=%d", srv.url, rel, 50+i),
+				fmt.Sprintf("%s/sum?item=%s.item1&pattern=s*.wsp&retention=y%d&from=a&until=b&now=c", srv.url, rel, i),
+				fmt.Sprintf("%s/items?pattern=[%d", srv.url, i),
+				fmt.Sprintf("%s/files?pattern=[%d", srv.url, i))
+		}
+		get := func(u string) string {
+			resp, err := http.Get(u)
+			if err != nil {
+				return "client error: " + err.Error()
+			}
+			defer resp.Body.Close()
+			b, _ := ioutil.ReadAll(resp.Body)
+			return fmt.Sprintf("%d %s", resp.StatusCode, string(b))
+		}
+		alone := map[string]string{}
+		for _, u := range bad {
+			alone[u] = get(u)
+		}
+		var ew sync.WaitGroup
+		var emu sync.Mutex
+		mismatch := ""
+		for t := 0; t < 8; t++ {
+			ew.Add(1)
+			go func(t int) {
+				defer ew.Done()
+				for j := 0; j < 40; j++ {
+					u := bad[(t*7+j*3)%len(bad)]
+					if got := get(u); got != alone[u] {
+						emu.Lock()
+						if mismatch == "" {
+							mismatch = fmt.Sprintf("%s answered %q concurrently, %q alone", u, got, alone[u])
+						}
+						emu.Unlock()
+					}
+				}
+			}(t)
+		}
+		ew.Wait()
+		if mismatch != "" {
+			emitCLI(map[string]interface{}{"ev": "view", "now": now, "sel": 0, "f": 0, "u": 0, "src": files[0], "k": "concurrent-error-response-differs", "msg": mismatch, "recs": [][]interface{}{}, "via": "http"})
+		}
 		os.RemoveAll(base)
 	}
 	cmd.VerifNow = nil
